@@ -195,7 +195,7 @@ def _bind(chk, sc):
         tagc[t] = tagc.get(t, 0) + 1
     chk.traces += len(records)
     chk.evaluations += stats.get("refs-ok", 0) + stats.get("refs-bad", 0)
-    chk.extra["programs"] = {"trees": ntrees, "programs": len(records), **stats}
+    chk.extra["program_stats"] = {"trees": ntrees, "programs": len(records), **stats}
     chk.extra["site_classes"] = dict(sorted(tagc.items()))
     chk.extra["late_pass_crashes_not_judged_here"] = sum(1 for r in records if r["obs"].get("late_exc"))
     for t in tagc:
